@@ -21,6 +21,6 @@ def handleFixCounts (j : Json) : Except String Json := do
   | .error .index => pure (jErr "IndexError")
   | .ok l => pure (jOk (Json.arr (l.toArray.map fun p => Json.arr #[Json.str (stringOfBits p.1), Json.str p.2])))
 
-def fixCountsHandlers : List (String × (Json → Except String Json)) := [("fix_counts", handleFixCounts)]
+def c16Handlers : List (String × (Json → Except String Json)) := [("fix_counts", handleFixCounts)]
 
 end QG.Driver
